@@ -64,6 +64,19 @@
 //	   therefore injects the observe error on the first read or on the live
 //	   fallback read, the latter both for resources the cache has not seen yet
 //	   (CacheLag, verifsim.LagHideNew) and for resources that are really gone.
+//
+//	M8 Composed resources of a namespaced kind live in ns-a / ns-b (a kind is
+//	   namespaced or cluster-scoped for the whole scenario, as on a real API
+//	   server). Two desired resources may share apiVersion, kind and metadata.name
+//	   when their namespaces differ; they are different objects. Every key in the
+//	   harness (good-phase bookkeeping, refs, write-log attribution) is the
+//	   simulated server's (group, kind, namespace, name). An object the XR composed
+//	   must be named by spec.resourceRefs INCLUDING its namespace, because only
+//	   referenced objects are observed and collected: a missing reference after a
+//	   successful composition is reported, and so is the resource that is then not
+//	   collected once it stops being desired. Only the pipeline composes
+//	   namespaced resources here (a P&T base's metadata.namespace is reset by
+//	   RenderFromJSON; placing P&T resources in namespaces needs patches).
 package c03
 
 import (
@@ -155,6 +168,7 @@ type scenario struct {
 	Pipeline     bool              `json:"pipeline"`
 	Good         []string          `json:"good"`            // names composed by the earlier, successful script/revision
 	Fixed        map[string]string `json:"fixed,omitempty"` // name -> explicit metadata.name set by the function
+	NS           map[string]string `json:"ns,omitempty"`    // name -> metadata.namespace (M8); "" = cluster-scoped
 	Perturb      map[string]string `json:"perturb"`         // name -> perturbation applied before the reconcile under test
 	ObserveFault string            `json:"observeFault,omitempty"`
 	// ObserveFaultLive asks for the error to hit the LIVE fallback read that follows a cache miss (NotFound from
@@ -329,6 +343,7 @@ func interpretPT(sc scenario) verdict {
 type scriptRunner struct {
 	steps   []stepSpec
 	fixed   map[string]string
+	ns      map[string]string
 	val     string
 	calls   map[int]int
 	runaway string
@@ -342,6 +357,9 @@ func (r *scriptRunner) resource(name string) (*fnv1.Resource, error) {
 	md := map[string]any{}
 	if f := r.fixed[name]; f != "" {
 		md["name"] = f
+	}
+	if ns := r.ns[name]; ns != "" {
+		md["namespace"] = ns
 	}
 	s, err := structpb.NewStruct(map[string]any{
 		"apiVersion": "example.org/v1", "kind": kindOf(name), "metadata": md,
@@ -489,6 +507,8 @@ type world struct {
 	byName map[string]verifsim.Key // objects the XR composed in the good phase (M1)
 	byKey  map[verifsim.Key]string
 	decoys map[verifsim.Key]bool
+	// composed objects that spec.resourceRefs failed to name after the successful good phase (M8)
+	missingRefs []string
 	// which read the injected observe error hit in the last reconcile (labels only)
 	faultClass string
 	// content of each composed object right after the good phase
@@ -515,7 +535,7 @@ func refsOf(xr verifsim.Obj) string {
 func setup(sc scenario) (*world, string) {
 	utilrand.Seed(sc.Seed)
 	env := verifenv.NewXREnv()
-	w := &world{env: env, sc: sc, runner: &scriptRunner{fixed: sc.Fixed}, byName: map[string]verifsim.Key{}, byKey: map[verifsim.Key]string{}, decoys: map[verifsim.Key]bool{}, origContent: map[string]verifsim.Obj{}}
+	w := &world{env: env, sc: sc, runner: &scriptRunner{fixed: sc.Fixed, ns: sc.NS}, byName: map[string]verifsim.Key{}, byKey: map[verifsim.Key]string{}, decoys: map[verifsim.Key]bool{}, origContent: map[string]verifsim.Obj{}}
 	env.Runner = w.runner
 	if sc.Pipeline {
 		good := stepSpec{}
@@ -555,10 +575,14 @@ func setup(sc scenario) (*world, string) {
 	if len(w.byName) != len(sc.Good) {
 		return nil, fmt.Sprintf("setup: the good script composed %v, expected %v (warnings: %v)", w.byName, sc.Good, env.Recorder.Warnings())
 	}
-	xro := env.Sim.Get(env.XRKey(xrName))
-	if l, _ := verifsim.Nested(xro, "spec", "resourceRefs").([]any); len(l) != len(sc.Good) {
-		return nil, fmt.Sprintf("setup: XR has refs %s, expected %d", refsOf(xro), len(sc.Good))
+	for _, n := range sc.Good {
+		if k := w.byName[n]; k.Namespace != sc.NS[n] {
+			return nil, fmt.Sprintf("setup: %q was composed as %s, expected namespace %q", n, k, sc.NS[n])
+		}
 	}
+	// M8: every object composed so far must be referenced, namespace included. A missing reference is not a
+	// harness problem but the first half of the violation; the reconcile under test is still run and judged.
+	w.missingRefs = w.unreferenced(nil)
 
 	// Decoys (M1): look composed by this XR but are not referenced by it.
 	c := env.Sim.Client("env")
@@ -566,13 +590,14 @@ func setup(sc scenario) (*world, string) {
 	for i, kind := range []string{"KindA", "KindB"} {
 		d := &unstructured.Unstructured{Object: map[string]any{"apiVersion": "example.org/v1", "kind": kind, "spec": map[string]any{"forProvider": map[string]any{"v": "decoy"}}}}
 		d.SetName(fmt.Sprintf("decoy-%d", i))
+		d.SetNamespace(sc.kindNamespace(kind))
 		d.SetAnnotations(map[string]string{annName: pname(i)})
 		d.SetLabels(map[string]string{"crossplane.io/composite": xrName})
 		d.SetOwnerReferences([]metav1.OwnerReference{{APIVersion: "example.org/v1", Kind: "XThing", Name: xrName, UID: types.UID(w.xrUID), Controller: ptr.To(true), BlockOwnerDeletion: ptr.To(true)}})
 		if err := c.Create(ctx, d); err != nil {
 			return nil, "setup: decoy: " + err.Error()
 		}
-		w.decoys[verifsim.Key{Group: "example.org", Kind: kind, Name: d.GetName()}] = true
+		w.decoys[verifsim.Key{Group: "example.org", Kind: kind, Namespace: d.GetNamespace(), Name: d.GetName()}] = true
 	}
 
 	for _, n := range sc.Good {
@@ -616,22 +641,23 @@ func setup(sc scenario) (*world, string) {
 	}
 	if n := sc.DupRef; n != "" {
 		k := w.byName[n]
-		place(map[string]any{"apiVersion": "example.org/v1", "kind": k.Kind, "name": k.Name}, sc.DupFront)
+		place(refEntry(k), sc.DupFront)
 	}
 	if n := sc.Twin; n != "" {
 		k := w.byName[n]
 		orig := w.origContent[n]
 		tw := &unstructured.Unstructured{Object: map[string]any{"apiVersion": "example.org/v1", "kind": k.Kind, "spec": verifsim.DeepCopy(orig)["spec"]}}
 		tw.SetName(k.Name + "-twin")
+		tw.SetNamespace(k.Namespace)
 		tw.SetAnnotations(verifsim.Annotations(orig))
 		tw.SetLabels(verifsim.Labels(orig))
 		tw.SetOwnerReferences([]metav1.OwnerReference{{APIVersion: "example.org/v1", Kind: "XThing", Name: xrName, UID: types.UID(w.xrUID), Controller: ptr.To(true), BlockOwnerDeletion: ptr.To(true)}})
 		if err := c.Create(ctx, tw); err != nil {
 			return nil, "setup: twin: " + err.Error()
 		}
-		tk := verifsim.Key{Group: "example.org", Kind: k.Kind, Name: tw.GetName()}
+		tk := verifsim.Key{Group: "example.org", Kind: k.Kind, Namespace: k.Namespace, Name: tw.GetName()}
 		w.byKey[tk] = n + twinSuffix
-		place(map[string]any{"apiVersion": "example.org/v1", "kind": k.Kind, "name": tw.GetName()}, sc.TwinFront)
+		place(refEntry(tk), sc.TwinFront)
 	}
 	if len(extra)+len(front) > 0 {
 		xu := verifsim.U(env.Sim.Get(env.XRKey(xrName)))
@@ -737,6 +763,56 @@ func (w *world) foreignBefore(_ string) bool {
 	return false
 }
 
+func refEntry(k verifsim.Key) map[string]any {
+	ref := map[string]any{"apiVersion": "example.org/v1", "kind": k.Kind, "name": k.Name}
+	if k.Namespace != "" {
+		ref["namespace"] = k.Namespace
+	}
+	return ref
+}
+
+// kindNamespace returns a namespace objects of the kind live in for this scenario ("" = cluster-scoped).
+func (sc scenario) kindNamespace(kind string) string {
+	for i := 0; i < poolSize; i++ {
+		if n := pname(i); kindOf(n) == kind && sc.NS[n] != "" {
+			return sc.NS[n]
+		}
+	}
+	return ""
+}
+
+// unreferenced lists live objects of composed kinds that the XR controls, that carry a
+// composition-resource-name annotation (restricted to names in only, if given) and that
+// spec.resourceRefs does not name by (kind, namespace, name). Decoys are unreferenced by design.
+func (w *world) unreferenced(only map[string]bool) []string {
+	xr := w.env.Sim.Get(w.env.XRKey(xrName))
+	refs := map[verifsim.Key]bool{}
+	if l, ok := verifsim.Nested(xr, "spec", "resourceRefs").([]any); ok {
+		for _, e := range l {
+			if m, ok := e.(map[string]any); ok {
+				ns, _ := m["namespace"].(string)
+				refs[verifsim.Key{Group: "example.org", Kind: fmt.Sprint(m["kind"]), Namespace: ns, Name: fmt.Sprint(m["name"])}] = true
+			}
+		}
+	}
+	var out []string
+	for _, k := range w.env.Sim.AllKeys() {
+		if k.Group != "example.org" || !composedKind(k.Kind) || w.decoys[k] || refs[k] {
+			continue
+		}
+		o := w.env.Sim.Get(k)
+		n := verifsim.Annotations(o)[annName]
+		if n == "" || verifsim.ControllerUID(o) != w.xrUID || verifsim.Terminating(o) {
+			continue
+		}
+		if only != nil && !only[n] {
+			continue
+		}
+		out = append(out, fmt.Sprintf("%s (resource name %q)", k, n))
+	}
+	return out
+}
+
 func describe(wr verifsim.Write) string {
 	s := fmt.Sprintf("#%d %s %s", wr.Seq, wr.Verb, wr.Key)
 	if wr.Sub != "" {
@@ -762,6 +838,9 @@ func judge(sc scenario) (verdict, []string) {
 	}
 	out := w.judgeOnce(v)
 	v.FaultClass = w.faultClass
+	if len(w.missingRefs) > 0 {
+		out = append([]string{fmt.Sprintf("GC cannot be exact: after two successful reconciles spec.resourceRefs %s has no reference (kind, namespace, name) to composed %s; an unreferenced resource is never observed and never collected once it stops being desired", refsOf(w.env.Sim.Get(w.env.XRKey(xrName))), strings.Join(w.missingRefs, ", "))}, out...)
+	}
 	if sc.Pipeline && v.Fails && len(out) == 0 {
 		// History: the same failure again on the next reconcile (the first one only touched XR status).
 		for _, m := range w.judgeOnce(v) {
@@ -837,6 +916,18 @@ func (w *world) judgeOnce(v verdict) []string {
 			out = append(out, fmt.Sprintf("pipeline fails (%s at step %d) but spec.resourceRefs changed:\n  before %s\n  after  %s", v.Why, v.FailStep, b, a))
 		}
 	case !v.Fails:
+		if sc.Pipeline {
+			// M8, for collisions that first arise in this reconcile: what it composed must be referenced.
+			want := map[string]bool{}
+			for n := range v.Desired {
+				if n != v.WeakPair {
+					want[n] = true
+				}
+			}
+			if miss := w.unreferenced(want); len(miss) > 0 {
+				out = append(out, fmt.Sprintf("GC cannot be exact: composition succeeds but spec.resourceRefs %s has no reference (kind, namespace, name) to still-desired composed %s", refsOf(after), strings.Join(miss, ", ")))
+			}
+		}
 		if v.WeakPair != "" {
 			delete(deleted, v.WeakPair)
 			delete(deleted, v.WeakPair+twinSuffix)
@@ -898,31 +989,61 @@ func genReqs(t *rapid.T, mustNotStabilise bool) []int {
 
 // compatible reports whether name can join the desired set without two desired
 // resources asking for the same kind and explicit metadata.name.
-func compatible(cur map[string]bool, fixed map[string]string, name string) bool {
-	if fixed[name] == "" {
+func compatible(cur map[string]bool, sc *scenario, name string) bool {
+	if sc.Fixed[name] == "" {
 		return true
 	}
 	for m := range cur {
-		if m != name && kindOf(m) == kindOf(name) && fixed[m] == fixed[name] {
+		if m != name && kindOf(m) == kindOf(name) && sc.NS[m] == sc.NS[name] && sc.Fixed[m] == sc.Fixed[name] {
 			return false
 		}
 	}
 	return true
 }
 
+// sameNameOtherNamespace reports whether two names of the set share kind and explicit metadata.name across namespaces.
+func sameNameOtherNamespace(set map[string]bool, sc scenario) bool {
+	for a := range set {
+		for b := range set {
+			if a < b && kindOf(a) == kindOf(b) && sc.Fixed[a] != "" && sc.Fixed[a] == sc.Fixed[b] && sc.NS[a] != sc.NS[b] {
+				return true
+			}
+		}
+	}
+	return false
+}
+
 func genScenario() *rapid.Generator[scenario] {
 	return rapid.Custom(func(t *rapid.T) scenario {
 		sc := scenario{Pipeline: rapid.IntRange(0, 3).Draw(t, "mode") > 0, Fixed: map[string]string{}, Perturb: map[string]string{}, Seed: rapid.Int64Range(1, 1<<40).Draw(t, "nameseed")}
+		sc.NS = map[string]string{}
+		for _, kind := range []string{"KindA", "KindB"} {
+			// P&T stays cluster-scoped: RenderFromJSON resets a base template's metadata.namespace to the
+			// (empty) one of the reference, so a plain base cannot place a resource in a namespace.
+			if !sc.Pipeline || !rapid.Bool().Draw(t, "namespaced") {
+				continue
+			}
+			for i := 0; i < poolSize; i++ {
+				if kindOf(pname(i)) == kind {
+					sc.NS[pname(i)] = rapid.SampledFrom([]string{"ns-a", "ns-b"}).Draw(t, "ns")
+				}
+			}
+		}
 		if sc.Pipeline {
 			for i := 0; i < poolSize; i++ {
-				if f := rapid.SampledFrom([]string{"", "", "fixed-0", "fixed-1"}).Draw(t, "fixed"); f != "" {
+				choices := []string{"", "", "fixed-0", "fixed-1"}
+				if sc.NS[pname(i)] != "" {
+					// same kind and name in different namespaces should be common
+					choices = []string{"", "fixed-0", "fixed-0", "fixed-0", "fixed-1"}
+				}
+				if f := rapid.SampledFrom(choices).Draw(t, "fixed"); f != "" {
 					sc.Fixed[pname(i)] = f
 				}
 			}
 		}
 		goodSet := map[string]bool{}
 		for i := 0; i < poolSize; i++ {
-			if rapid.IntRange(0, 9).Draw(t, "ingood") < 5 && compatible(goodSet, sc.Fixed, pname(i)) {
+			if rapid.IntRange(0, 9).Draw(t, "ingood") < 5 && compatible(goodSet, &sc, pname(i)) {
 				goodSet[pname(i)] = true
 			}
 		}
@@ -993,7 +1114,7 @@ func genScenario() *rapid.Generator[scenario] {
 				a := pname(rapid.IntRange(0, poolSize-1).Draw(t, "a"))
 				switch rapid.SampledFrom([]string{"add", "add", "drop", "drop", "rename", "keep"}).Draw(t, "op") {
 				case "add":
-					if compatible(cur, sc.Fixed, a) {
+					if compatible(cur, &sc, a) {
 						st.Ops = append(st.Ops, op{Op: "add", A: a})
 						cur[a] = true
 					}
@@ -1011,7 +1132,7 @@ func genScenario() *rapid.Generator[scenario] {
 							without[n] = true
 						}
 					}
-					if !compatible(without, sc.Fixed, b) {
+					if !compatible(without, &sc, b) {
 						continue
 					}
 					st.Ops = append(st.Ops, op{Op: "rename", A: a, B: b})
@@ -1090,6 +1211,35 @@ func classify(rec *verifkit.Recorder, sc scenario, v verdict) {
 	mode := "pt"
 	if sc.Pipeline {
 		mode = "pipeline"
+	}
+	nsKinds := 0
+	for _, kind := range []string{"KindA", "KindB"} {
+		if sc.kindNamespace(kind) != "" {
+			nsKinds++
+		}
+	}
+	rec.Labelf("ns:namespaced-kinds=%d", nsKinds)
+	goodSet := map[string]bool{}
+	nsGood := false
+	for _, n := range sc.Good {
+		goodSet[n] = true
+		nsGood = nsGood || sc.NS[n] != ""
+	}
+	if nsGood {
+		rec.Label("ns:composed-namespaced-resources," + mode)
+	}
+	if sameNameOtherNamespace(goodSet, sc) {
+		rec.Label("ns:same-kind+name-in-two-namespaces:composed-before")
+		for n := range v.ExpectDel {
+			for _, m := range sc.Good {
+				if !v.Fails && m != n && kindOf(m) == kindOf(n) && sc.Fixed[m] != "" && sc.Fixed[m] == sc.Fixed[n] && sc.NS[m] != sc.NS[n] {
+					rec.Label("ns:same-kind+name-in-two-namespaces:one-or-both-must-be-collected")
+				}
+			}
+		}
+	}
+	if sc.Pipeline && !v.Fails && sameNameOtherNamespace(v.Desired, sc) {
+		rec.Label("ns:same-kind+name-in-two-namespaces:in-final-desired")
 	}
 	if sc.CacheLag {
 		rec.Label("cache-lag(" + mode + ")")
@@ -1266,6 +1416,11 @@ func TestVerifC03Pinned(t *testing.T) {
 		{name: "resource really gone, live read fails", sc: scenario{Pipeline: true, Good: []string{"r0", "r1"}, Perturb: map[string]string{"r0": pMissing, "r1": pPresent}, ObserveFault: "r0", ObserveFaultLive: true, Steps: []stepSpec{{Ops: add("r0", "r3")}}}, fails: true},
 		{name: "cache lag only, nothing fails", sc: scenario{Pipeline: true, Good: []string{"r0", "r1"}, Perturb: all, CacheLag: true, Steps: []stepSpec{{Ops: add("r0")}}}, expectDel: "r1"},
 		{name: "P&T cache lag, template removed", sc: scenario{Good: []string{"r0", "r1"}, Perturb: all, CacheLag: true, Templates: []string{"r1"}}, expectDel: "r0"},
+		{name: "same kind and name in two namespaces, one stops being desired", sc: scenario{Pipeline: true, Good: []string{"r0", "r1", "r3"}, NS: map[string]string{"r1": "ns-a", "r3": "ns-b", "r5": "ns-a"}, Fixed: map[string]string{"r1": "app-config", "r3": "app-config"}, Perturb: map[string]string{"r0": pPresent, "r1": pPresent, "r3": pPresent}, Steps: []stepSpec{{Ops: add("r0", "r1")}}}, expectDel: "r3"},
+		{name: "same kind and name in two namespaces, the other one stops being desired", sc: scenario{Pipeline: true, Good: []string{"r0", "r1", "r3"}, NS: map[string]string{"r1": "ns-a", "r3": "ns-b", "r5": "ns-a"}, Fixed: map[string]string{"r1": "app-config", "r3": "app-config"}, Perturb: map[string]string{"r0": pPresent, "r1": pPresent, "r3": pPresent}, Steps: []stepSpec{{Ops: add("r0", "r3")}}}, expectDel: "r1"},
+		{name: "same kind and name in two namespaces, both stop being desired", sc: scenario{Pipeline: true, Good: []string{"r0", "r1", "r3"}, NS: map[string]string{"r1": "ns-a", "r3": "ns-b", "r5": "ns-a"}, Fixed: map[string]string{"r1": "app-config", "r3": "app-config"}, Perturb: map[string]string{"r0": pPresent, "r1": pUncontrolled, "r3": pTerminating}, Steps: []stepSpec{{Ops: add("r0")}}}, expectDel: "r1,r3"},
+		{name: "same kind and name in a second namespace is added by the reconcile under test", sc: scenario{Pipeline: true, Good: []string{"r1"}, NS: map[string]string{"r1": "ns-a", "r3": "ns-b", "r5": "ns-a"}, Fixed: map[string]string{"r1": "app-config", "r3": "app-config"}, Perturb: map[string]string{"r1": pPresent}, Steps: []stepSpec{{KeepObserved: true, Ops: add("r3")}}}, expectDel: ""},
+		{name: "generated names in two namespaces, fatal result", sc: scenario{Pipeline: true, Good: []string{"r1", "r3"}, NS: map[string]string{"r1": "ns-a", "r3": "ns-b", "r5": "ns-b"}, Perturb: map[string]string{"r1": pPresent, "r3": pPresent}, Steps: []stepSpec{{Ops: add("r1")}, {Fail: "fatal"}}}, fails: true},
 		{name: "P&T foreign-controlled without template", sc: scenario{Good: []string{"r0", "r1"}, Perturb: map[string]string{"r0": pForeign, "r1": pPresent}, Templates: []string{"r1"}}, fails: true},
 	}
 	for i, row := range rows {
